@@ -110,10 +110,10 @@ PROPS = {
               ' Also: a lost connection is attributed to a member only by comparing the registry entries with the connection object; CONNECTED is entered only behind a clear SO_ERROR; CONNECTING is never left behind without a poller subscription; retry and silence intervals are measured on the monotonic clock; every read event refreshes the silence stamp; a recognised member is never refused its new connection.',
               ['reconnection within bounded time', 'half-open connection handling', 'accuracy of connect/disconnect notifications under fault sequences'],
               'must-fact guard entailment, effect multiset per path'),
-    'C15': _p(['R-delegate-agree', 'R-counter-ops', 'R-queue-bound', 'R-consumer-state', 'R-cmd-shapes', 'R-none-is-a-value', 'R-heap-discipline', 'L-undefined-name', 'R-consumer-payload', 'R-reset-replaces'],
+    'C15': _p(['R-delegate-agree', 'R-counter-ops', 'R-queue-bound', 'R-consumer-state', 'R-cmd-shapes', 'R-none-is-a-value', 'R-heap-discipline', 'L-undefined-name', 'R-consumer-payload', 'R-reset-replaces', 'R-deterministic-ops'],
               'every delegating battery method agrees with the builtin it forwards to (operation, parameter order, defaults, returned value; documented deviations tabled); counter arithmetic; '
               'bounded queues insert only below the bound, report acceptance truthfully, remove in queue order; battery state is created where it gets serialised.'
-              ' Also: no wrapper decides absence of a key from a None lookup result (None is a value); a wrapper named like a builtin operation passes every parameter to it; reset() replaces the container.',
+              ' Also: no wrapper decides absence of a key from a None lookup result (None is a value); a wrapper named like a builtin operation passes every parameter to it; reset() replaces the container; no replicated operation delegates to a builtin whose result depends on the hash-table layout (finding D22: ReplSet.pop).',
               ['behavioural equivalence over operation sequences for the non-delegating methods', 'equality of replicas'],
               'signature-table agreement (cross-checked with inspect.signature of builtins), guard entailment'),
     'C16': _p(['R-lock-guards', 'R-expiry-partition', 'R-late-acquire', 'L-undefined-name', 'L-none-call', 'R-lock-client-identity'],
